@@ -7,13 +7,24 @@
 //	                                                  <trace.ndjson>.0 .. .N-1 (STYLING_SHARDS=N)
 //	styling replay <case.json> <trace.ndjson> <result.json>
 //
-// For every input the run over a reader that delivers the whole input at once is the
-// reference; it is always written as a trace.  Every other reader (each 2-way split, one
-// byte per Read, iotest.OneByteReader, iotest.DataErrReader, ...) is run too and its
-// observation sequence compared with the reference: a run that differs is written as a
-// trace that carries the reference ("ref"), so that TLC rejects it under
-// C17_ChunkIndependent; runs equal to the reference are counted, and a seeded sample of
-// them is written with "ref" as well (TLC must accept those).
+// For every input the run over a reader that delivers the whole input at once and reports
+// io.EOF in a separate empty read (bytes.Reader) is the reference; it is always written as a
+// trace.  Every other DELIVERY is run too and its observation sequence compared with the
+// reference: a run that differs is written as a trace that carries the reference ("ref"),
+// so that TLC rejects it under C17_ChunkIndependent; runs equal to the reference are
+// counted, and a seeded sample of them is written with "ref" as well (TLC must accept those).
+//
+// A delivery has two dimensions (deliveries()):
+//   - where the input is cut: one big read, every 2-way split, one octet per Read, pieces of
+//     2 and 3 octets, seeded random multi-way cuts (long lines: 1000/4096, HalfReader);
+//   - how the reader signals the end: io.EOF in a separate empty read, or TOGETHER with the
+//     last data (n > 0, io.EOF) - bufio.Scanner then calls the split function with
+//     atEOF = true for everything still buffered - and with or without (0, nil) reads in
+//     front of every piece and of the final EOF.
+//
+// Every reader is wrapped in a recorder; the reads the decoder actually performed (cumulative
+// offsets, and how EOF was signalled) are part of the trace ("rd", "eof"): TrStyling checks
+// that they are a legal delivery of the input (LegalDelivery of Styling.tla).
 package main
 
 import (
@@ -27,6 +38,7 @@ import (
 	"runtime/debug"
 	"strconv"
 	"strings"
+	"sync"
 	"testing/iotest"
 
 	"mellium.im/xmpp/styling"
@@ -78,33 +90,87 @@ func ints(b []byte) []int {
 	return out
 }
 
-// chunkReader delivers the given pieces, one per Read call, then io.EOF.
-type chunkReader struct {
-	chunks [][]byte
+// delivReader delivers the given pieces, one per Read call.  The end of the input is
+// signalled either by a separate (0, io.EOF) read or together with the last data
+// (n > 0, io.EOF); zeros (0, nil) reads precede every piece and a separate EOF.
+type delivReader struct {
+	pieces      [][]byte
+	eofWithData bool
+	zeros       int
+	pending     int
 }
 
-func (c *chunkReader) Read(p []byte) (int, error) {
-	for len(c.chunks) > 0 && len(c.chunks[0]) == 0 {
-		c.chunks = c.chunks[1:]
+func newDeliv(in []byte, cuts []int, eofWithData bool, zeros int) *delivReader {
+	d := &delivReader{eofWithData: eofWithData, zeros: zeros, pending: zeros}
+	prev := 0
+	for _, c := range append(append([]int{}, cuts...), len(in)) {
+		if c > len(in) {
+			c = len(in)
+		}
+		if c > prev {
+			d.pieces = append(d.pieces, in[prev:c])
+			prev = c
+		}
 	}
-	if len(c.chunks) == 0 {
+	return d
+}
+
+func (c *delivReader) Read(p []byte) (int, error) {
+	if len(p) == 0 {
+		return 0, nil
+	}
+	if c.pending > 0 {
+		c.pending--
+		return 0, nil
+	}
+	if len(c.pieces) == 0 {
 		return 0, io.EOF
 	}
-	n := copy(p, c.chunks[0])
-	c.chunks[0] = c.chunks[0][n:]
+	n := copy(p, c.pieces[0])
+	c.pieces[0] = c.pieces[0][n:]
+	if len(c.pieces[0]) == 0 {
+		c.pieces = c.pieces[1:]
+		c.pending = c.zeros
+	}
+	if len(c.pieces) == 0 && c.eofWithData {
+		return n, io.EOF
+	}
 	return n, nil
 }
 
-func fixedChunks(in []byte, size int) io.Reader {
-	var cs [][]byte
-	for i := 0; i < len(in); i += size {
-		j := i + size
-		if j > len(in) {
-			j = len(in)
-		}
-		cs = append(cs, in[i:j])
+// recReader records what the decoder's reads returned: the cumulative number of octets
+// after every Read and how the end of the input was signalled.
+type recReader struct {
+	r    io.Reader
+	off  int
+	offs []int
+	eof  string
+}
+
+func (r *recReader) Read(p []byte) (int, error) {
+	n, err := r.r.Read(p)
+	if r.eof != "none" {
+		return n, err // reads after the end are not part of the delivery
 	}
-	return &chunkReader{chunks: cs}
+	r.off += n
+	r.offs = append(r.offs, r.off)
+	switch {
+	case err == io.EOF && n > 0:
+		r.eof = "with-data"
+	case err == io.EOF:
+		r.eof = "separate"
+	case err != nil:
+		r.eof = "error"
+	}
+	return n, err
+}
+
+func fixedCuts(n, size int) []int {
+	var cs []int
+	for i := size; i < n; i += size {
+		cs = append(cs, i)
+	}
+	return cs
 }
 
 type readerKind struct {
@@ -112,33 +178,140 @@ type readerKind struct {
 	mk   func(in []byte) io.Reader
 }
 
-// readers returns every way the input is delivered (the first one is the reference).
-func readers(in []byte) []readerKind {
+// own builds a delivery of this package's reader; the name describes it completely
+// (parseDelivery is the inverse, used by replays).
+func own(kind string, cuts []int, eofWithData bool, zeros int) readerKind {
+	name := kind
+	if eofWithData {
+		name += "/eof-with-data"
+	} else {
+		name += "/eof-separate"
+	}
+	if zeros > 0 {
+		name += "/zero-reads=" + strconv.Itoa(zeros)
+	}
+	return readerKind{name, func(in []byte) io.Reader { return newDeliv(in, cuts, eofWithData, zeros) }}
+}
+
+func piecesName(cuts []int) string {
+	ss := make([]string, len(cuts))
+	for i, c := range cuts {
+		ss[i] = strconv.Itoa(c)
+	}
+	return "cuts[" + strings.Join(ss, ",") + "]"
+}
+
+// parseDelivery rebuilds a delivery from its name ("split@3/eof-with-data/zero-reads=1").
+func parseDelivery(name string, n int) (readerKind, bool) {
+	parts := strings.Split(name, "/")
+	if len(parts) < 2 {
+		return readerKind{}, false
+	}
+	var cuts []int
+	k := parts[0]
+	switch {
+	case k == "whole":
+	case k == "bytes":
+		cuts = fixedCuts(n, 1)
+	case strings.HasPrefix(k, "split@"):
+		c, err := strconv.Atoi(k[len("split@"):])
+		if err != nil {
+			return readerKind{}, false
+		}
+		cuts = []int{c}
+	case strings.HasPrefix(k, "chunks of "):
+		c, err := strconv.Atoi(k[len("chunks of "):])
+		if err != nil || c < 1 {
+			return readerKind{}, false
+		}
+		cuts = fixedCuts(n, c)
+	case strings.HasPrefix(k, "cuts[") && strings.HasSuffix(k, "]"):
+		for _, f := range strings.Split(k[len("cuts["):len(k)-1], ",") {
+			if f == "" {
+				continue
+			}
+			c, err := strconv.Atoi(f)
+			if err != nil {
+				return readerKind{}, false
+			}
+			cuts = append(cuts, c)
+		}
+	default:
+		return readerKind{}, false
+	}
+	with := false
+	switch parts[1] {
+	case "eof-with-data":
+		with = true
+	case "eof-separate":
+	default:
+		return readerKind{}, false
+	}
+	zeros := 0
+	if len(parts) > 2 && strings.HasPrefix(parts[2], "zero-reads=") {
+		zeros, _ = strconv.Atoi(parts[2][len("zero-reads="):])
+	}
+	return own(k, cuts, with, zeros), true
+}
+
+// deliveries returns every way the input is delivered (the first one is the reference).
+// full: also the (0, nil) variants of every split and the pieces of 2 and 3 octets (small
+// inputs and the structured documents); nrand seeded multi-way cuts with a random end
+// style are added for the others.
+func deliveries(in []byte, full bool, nrand int, rnd *rand.Rand) []readerKind {
+	n := len(in)
 	rs := []readerKind{{"whole", func(in []byte) io.Reader { return bytes.NewReader(in) }}}
-	if len(in) <= 64 {
-		for k := 1; k < len(in); k++ {
-			k := k
-			rs = append(rs, readerKind{"split@" + strconv.Itoa(k), func(in []byte) io.Reader {
-				return &chunkReader{chunks: [][]byte{in[:k], in[k:]}}
-			}})
+	rs = append(rs,
+		own("whole", nil, true, 0),
+		own("whole", nil, false, 2),
+		readerKind{"iotest.DataErrReader", func(in []byte) io.Reader { return iotest.DataErrReader(bytes.NewReader(in)) }},
+	)
+	if n <= 64 {
+		for k := 1; k < n; k++ {
+			rs = append(rs, own("split@"+strconv.Itoa(k), []int{k}, false, 0), own("split@"+strconv.Itoa(k), []int{k}, true, 0))
+			if full {
+				rs = append(rs, own("split@"+strconv.Itoa(k), []int{k}, false, 1), own("split@"+strconv.Itoa(k), []int{k}, true, 1))
+			}
 		}
 	}
-	if len(in) <= 5000 {
+	if n <= 5000 {
 		rs = append(rs,
-			readerKind{"bytes", func(in []byte) io.Reader { return fixedChunks(in, 1) }},
+			own("bytes", fixedCuts(n, 1), false, 0),
+			own("bytes", fixedCuts(n, 1), true, 0),
 			readerKind{"iotest.OneByteReader", func(in []byte) io.Reader { return iotest.OneByteReader(bytes.NewReader(in)) }},
 			readerKind{"iotest.DataErrReader(OneByteReader)", func(in []byte) io.Reader {
 				return iotest.DataErrReader(iotest.OneByteReader(bytes.NewReader(in)))
 			}},
 		)
+		if full && n > 2 {
+			rs = append(rs, own("bytes", fixedCuts(n, 1), true, 1))
+			for _, c := range []int{2, 3} {
+				rs = append(rs, own("chunks of "+strconv.Itoa(c), fixedCuts(n, c), false, 0), own("chunks of "+strconv.Itoa(c), fixedCuts(n, c), true, 0))
+			}
+		}
 	}
-	rs = append(rs, readerKind{"iotest.DataErrReader", func(in []byte) io.Reader { return iotest.DataErrReader(bytes.NewReader(in)) }})
-	if len(in) > 64 {
+	if n > 64 {
+		for _, c := range []int{1000, 4096} {
+			rs = append(rs, own("chunks of "+strconv.Itoa(c), fixedCuts(n, c), false, 0), own("chunks of "+strconv.Itoa(c), fixedCuts(n, c), true, 0))
+		}
 		rs = append(rs,
-			readerKind{"chunks of 1000", func(in []byte) io.Reader { return fixedChunks(in, 1000) }},
-			readerKind{"chunks of 4096", func(in []byte) io.Reader { return fixedChunks(in, 4096) }},
 			readerKind{"iotest.HalfReader", func(in []byte) io.Reader { return iotest.HalfReader(bytes.NewReader(in)) }},
+			readerKind{"iotest.DataErrReader(HalfReader)", func(in []byte) io.Reader {
+				return iotest.DataErrReader(iotest.HalfReader(bytes.NewReader(in)))
+			}},
 		)
+	}
+	if n > 2 && n <= 5000 {
+		for i := 0; i < nrand; i++ {
+			var cuts []int
+			p := 1 + rnd.Intn(4) // a cut after every octet with probability 1/2 .. 1/5
+			for k := 1; k < n; k++ {
+				if rnd.Intn(p+1) == 0 {
+					cuts = append(cuts, k)
+				}
+			}
+			rs = append(rs, own(piecesName(cuts), cuts, rnd.Intn(2) == 0, rnd.Intn(3)))
+		}
 	}
 	return rs
 }
@@ -274,9 +447,19 @@ type diffCase struct {
 	Got    []vt.Ev `json:"got"`
 }
 
+// job is one input with the APIs to run it through and the size of its delivery dimension.
+type job struct {
+	in    []byte
+	apis  []string
+	full  bool   // all (0, nil) variants and small fixed pieces
+	nrand int    // seeded random multi-way cuts
+	extra string // a named delivery to add (replay)
+	class string
+}
+
+// runner processes the inputs of one shard (one goroutine, one trace file, own seeded rnd).
 type runner struct {
-	tws        []*vt.TraceWriter // one trace file per shard (validated by TLC in parallel)
-	tw         *vt.TraceWriter   // the shard of the current input
+	tw         *vt.TraceWriter // the trace file of this shard (validated by TLC in parallel with the others)
 	shard      int
 	rnd        *rand.Rand
 	sampleRate float64
@@ -290,19 +473,37 @@ type runner struct {
 	diffs      []diffCase
 	samples    []interface{}
 	byReader   map[string]int
+	byClass    map[string]int
+	eofStyles  map[string]int
 }
 
-func (r *runner) doInput(in []byte, apis []string) {
-	r.shard = r.inputs % len(r.tws)
-	r.tw = r.tws[r.shard]
+func kindOf(name string) string {
+	if strings.HasPrefix(name, "split@") {
+		name = "split" + name[strings.IndexByte(name+"/", '/'):]
+	}
+	if strings.HasPrefix(name, "cuts[") {
+		name = "random cuts" + name[strings.IndexByte(name+"/", '/'):]
+	}
+	return name
+}
+
+func (r *runner) doInput(j job) {
+	in := j.in
 	r.inputs++
-	for _, api := range apis {
-		rs := readers(in)
-		ref := observe(api, in, rs[0].mk(in))
+	r.byClass[j.class]++
+	for _, api := range j.apis {
+		rs := deliveries(in, j.full, j.nrand, r.rnd)
+		if j.extra != "" {
+			if rk, ok := parseDelivery(j.extra, len(in)); ok {
+				rs = append(rs, rk)
+			}
+		}
+		rec := &recReader{r: rs[0].mk(in), eof: "none", offs: make([]int, 0, 2)}
+		ref := observe(api, in, rec)
 		refKey := key(ref)
 		r.runs++
 		refEvs := evs(ref)
-		t := r.tw.Write(vt.Ev{"input": ints(in), "api": api, "ref": []vt.Ev{}}, refEvs)
+		t := r.tw.Write(vt.Ev{"input": ints(in), "api": api, "ref": []vt.Ev{}, "rd": rec.offs, "eof": rec.eof}, refEvs)
 		r.tw.Meta(map[string]interface{}{"api": api, "input": ints(in), "text": strconv.Quote(string(in)), "reader": rs[0].name})
 		if len(r.samples) < 3 && api == "decoder" && len(ref) > 4 && len(in) < 40 {
 			r.samples = append(r.samples, map[string]interface{}{"input": strconv.Quote(string(in)), "reader": "whole", "observations": refEvs})
@@ -310,32 +511,30 @@ func (r *runner) doInput(in []byte, apis []string) {
 		seen := map[string]bool{refKey: true}
 		any := false
 		for _, rk := range rs[1:] {
-			got := observe(api, in, rk.mk(in))
+			rec := &recReader{r: rk.mk(in), eof: "none", offs: make([]int, 0, 8)}
+			got := observe(api, in, rec)
 			r.runs++
+			r.eofStyles[rec.eof]++
 			k := key(got)
 			if k == refKey {
 				r.same++
 				if r.rnd.Float64() < r.sampleRate {
 					r.sampled++
-					r.tw.Write(vt.Ev{"input": ints(in), "api": api, "ref": refEvs}, evs(got))
+					r.tw.Write(vt.Ev{"input": ints(in), "api": api, "ref": refEvs, "rd": rec.offs, "eof": rec.eof}, evs(got))
 					r.tw.Meta(map[string]interface{}{"api": api, "input": ints(in), "text": strconv.Quote(string(in)), "reader": rk.name, "sample": true})
 				}
 				continue
 			}
 			r.differ++
-			name := rk.name
-			if strings.HasPrefix(name, "split@") {
-				name = "split"
-			}
-			r.byReader[api+"/"+name]++
+			r.byReader[api+"/"+kindOf(rk.name)]++
 			any = true
 			if seen[k] {
 				continue
 			}
 			seen[k] = true
-			t = r.tw.Write(vt.Ev{"input": ints(in), "api": api, "ref": refEvs}, evs(got))
+			t = r.tw.Write(vt.Ev{"input": ints(in), "api": api, "ref": refEvs, "rd": rec.offs, "eof": rec.eof}, evs(got))
 			r.tw.Meta(map[string]interface{}{"api": api, "input": ints(in), "text": strconv.Quote(string(in)), "reader": rk.name, "differs": true})
-			if len(r.diffs) < 400 {
+			if len(r.diffs) < 100 {
 				r.diffs = append(r.diffs, diffCase{API: api, Input: ints(in), Text: strconv.Quote(string(in)), Reader: rk.name, Shard: r.shard, T: t, Ref: refEvs, Got: evs(got)})
 			}
 		}
@@ -378,6 +577,113 @@ var templates = []string{
 }
 var fillers = []string{"", "a", "*a*", "a b", "`c`", ">", "```", "_b", " ", "> q"}
 
+// preDocs are documents built around one preformatted block: an opening fence (with or
+// without info string), inner lines that merely START like a fence (three backticks and
+// more text, four backticks, backticks after a quote marker or a space) or are ordinary,
+// an optional closing fence, an optional line after the block; every line of the block
+// carries the same quote prefix (the line after it the same or none); with and without a
+// trailing newline.  Unterminated blocks and fence-like lines at the very end of the input
+// are part of the product.
+var preInner = []string{"a", "", "```go", "````", "``` x", "> ```", "``", " ```"}
+var preAfter = []string{"", "b", "*b*", "> q", "```go"}
+
+func preDoc(prefix, open string, inner []string, closed bool, after, afterPrefix string, nl bool) []byte {
+	lines := []string{prefix + open}
+	for _, l := range inner {
+		lines = append(lines, prefix+l)
+	}
+	if closed {
+		lines = append(lines, prefix+"```")
+	}
+	if after != "" {
+		lines = append(lines, afterPrefix+after)
+	}
+	d := strings.Join(lines, "\n")
+	if nl {
+		d += "\n"
+	}
+	return []byte(d)
+}
+
+func preDocs(tier string, rnd *rand.Rand) [][]byte {
+	seen := map[string]bool{}
+	var out [][]byte
+	add := func(d []byte) {
+		if !seen[string(d)] {
+			seen[string(d)] = true
+			out = append(out, d)
+		}
+	}
+	var seqs1, seqs2 [][]string
+	seqs1 = append(seqs1, nil)
+	for _, a := range preInner {
+		seqs1 = append(seqs1, []string{a})
+		for _, b := range preInner {
+			seqs2 = append(seqs2, []string{a, b})
+		}
+	}
+	prefixes := []string{"", "> ", ">> "}
+	if tier == "thorough" {
+		prefixes = append(prefixes, ">", "> > ")
+	}
+	product := func(seqs [][]string, prefixes, opens, afters []string, dropPrefix bool) {
+		for _, in := range seqs {
+			for _, p := range prefixes {
+				for _, o := range opens {
+					for _, closed := range []bool{false, true} {
+						for _, af := range afters {
+							for _, nl := range []bool{true, false} {
+								add(preDoc(p, o, in, closed, af, p, nl))
+								if dropPrefix {
+									add(preDoc(p, o, in, closed, af, "", nl))
+								}
+							}
+						}
+					}
+				}
+			}
+		}
+	}
+	product(seqs1, prefixes, []string{"```", "```go"}, preAfter, true)
+	if tier == "thorough" {
+		product(seqs2, prefixes, []string{"```", "```go"}, preAfter, true)
+	} else {
+		product(seqs2, []string{"", "> "}, []string{"```"}, []string{"", "b", "> q"}, false)
+	}
+	// seeded: longer blocks, the quote prefix chosen per line (a quote that ends or deepens
+	// in the middle of the block)
+	nr := 400
+	if tier == "thorough" {
+		nr = 6000
+	}
+	pick := func(ss []string) string { return ss[rnd.Intn(len(ss))] }
+	for i := 0; i < nr; i++ {
+		p := pick(prefixes)
+		linePrefix := func() string {
+			if rnd.Intn(4) == 0 {
+				return pick([]string{"", "> ", ">> ", ">"})
+			}
+			return p
+		}
+		lines := []string{p + pick([]string{"```", "```go"})}
+		for k := rnd.Intn(4) + 1; k > 0; k-- {
+			lines = append(lines, linePrefix()+pick(preInner))
+		}
+		if rnd.Intn(2) == 0 {
+			lines = append(lines, linePrefix()+"```")
+		}
+		if rnd.Intn(2) == 0 {
+			lines = append(lines, linePrefix()+pick(preAfter[1:]))
+		}
+		d := strings.Join(lines, "\n")
+		if rnd.Intn(2) == 0 {
+			d += "\n"
+		}
+		add([]byte(d))
+	}
+	return out
+}
+
 func longLines() [][]byte {
 	var out [][]byte
 	for _, n := range []int{4095, 4096, 4097, 8191, 65535, 65536, 70000} {
@@ -397,7 +703,7 @@ func main() {
 	}
 	seed, _ := strconv.ParseInt(os.Getenv("VERIF_SEED"), 10, 64)
 	tier := os.Getenv("VERIF_TIER")
-	r := &runner{rnd: rand.New(rand.NewSource(seed)), distinct: map[string]bool{}, byReader: map[string]int{}}
+	rnd := rand.New(rand.NewSource(seed))
 	var tracePath, resPath string
 	apis := []string{"decoder", "scan"}
 	if os.Args[1] == "replay" {
@@ -409,17 +715,11 @@ func main() {
 	if shards < 1 {
 		shards = 1
 	}
-	for i := 0; i < shards; i++ {
-		tw, err := vt.NewTraceWriter(tracePath + "." + strconv.Itoa(i))
-		if err != nil {
-			panic(err)
-		}
-		r.tws = append(r.tws, tw)
-	}
-	r.sampleRate = 0.002
+	sampleRate := 0.002
 	if v := os.Getenv("STYLING_SAMPLE"); v != "" {
-		r.sampleRate, _ = strconv.ParseFloat(v, 64)
+		sampleRate, _ = strconv.ParseFloat(v, 64)
 	}
+	var jobs []job
 	exhaustive, sampledLen, sampledN := 4, 0, 0
 	if os.Args[1] == "replay" {
 		b, err := os.ReadFile(os.Args[2])
@@ -427,8 +727,9 @@ func main() {
 			panic(err)
 		}
 		var c struct {
-			Input []int  `json:"input"`
-			API   string `json:"api"`
+			Input  []int  `json:"input"`
+			API    string `json:"api"`
+			Reader string `json:"reader"`
 		}
 		if err := json.Unmarshal(b, &c); err != nil {
 			panic(err)
@@ -437,8 +738,8 @@ func main() {
 		for i, x := range c.Input {
 			in[i] = byte(x)
 		}
-		r.sampleRate = 1
-		r.doInput(in, []string{c.API})
+		sampleRate = 1
+		jobs = append(jobs, job{in: in, apis: []string{c.API}, full: true, nrand: 4, extra: c.Reader, class: "replay"})
 	} else {
 		switch tier {
 		case "thorough":
@@ -456,40 +757,97 @@ func main() {
 			sampledN, _ = strconv.Atoi(v)
 		}
 		for n := 0; n <= exhaustive; n++ {
-			enumerate(n, func(b []byte) { r.doInput(b, apis) })
+			n := n
+			enumerate(n, func(b []byte) {
+				jobs = append(jobs, job{in: b, apis: apis, full: n <= 4, nrand: 2, class: "exhaustive"})
+			})
 		}
 		for i := 0; i < sampledN; i++ {
-			n := exhaustive + 1 + r.rnd.Intn(sampledLen-exhaustive)
+			n := exhaustive + 1 + rnd.Intn(sampledLen-exhaustive)
 			var b []byte
 			for j := 0; j < n; j++ {
-				b = append(b, symbols[r.rnd.Intn(len(symbols))]...)
+				b = append(b, symbols[rnd.Intn(len(symbols))]...)
 			}
-			r.doInput(b, apis)
+			jobs = append(jobs, job{in: b, apis: apis, nrand: 2, class: "sampled"})
 		}
 		for _, t := range templates {
 			for _, f1 := range fillers {
 				for _, f2 := range fillers {
-					r.doInput([]byte(fmt.Sprintf(t, f1, f2)), apis)
+					jobs = append(jobs, job{in: []byte(fmt.Sprintf(t, f1, f2)), apis: apis, full: true, nrand: 2, class: "templates"})
 				}
 			}
 		}
+		for _, d := range preDocs(tier, rnd) {
+			jobs = append(jobs, job{in: d, apis: apis, full: true, nrand: 4, class: "pre-block documents"})
+		}
 		for _, l := range longLines() {
-			r.doInput(l, []string{"decoder"})
+			jobs = append(jobs, job{in: l, apis: []string{"decoder"}, nrand: 1, class: "long lines"})
 		}
 	}
-	traces, events := 0, 0
-	for _, tw := range r.tws {
-		t, e := tw.Counts()
-		traces, events = traces+t, events+e
-		if err := tw.Close(); err != nil {
+	// one goroutine per shard (at most 8 at a time); everything a shard does depends only
+	// on VERIF_SEED and the shard number
+	rs := make([]*runner, shards)
+	sem := make(chan struct{}, 8)
+	var wg sync.WaitGroup
+	for i := 0; i < shards; i++ {
+		tw, err := vt.NewTraceWriter(tracePath + "." + strconv.Itoa(i))
+		if err != nil {
 			panic(err)
 		}
+		r := &runner{tw: tw, shard: i, rnd: rand.New(rand.NewSource(seed*7919 + int64(i) + 1)), sampleRate: sampleRate,
+			distinct: map[string]bool{}, byReader: map[string]int{}, byClass: map[string]int{}, eofStyles: map[string]int{}}
+		rs[i] = r
+		wg.Add(1)
+		go func(i int) {
+			defer wg.Done()
+			sem <- struct{}{}
+			defer func() { <-sem }()
+			for k := i; k < len(jobs); k += shards {
+				r.doInput(jobs[k])
+			}
+		}(i)
 	}
+	wg.Wait()
+	traces, events := 0, 0
+	tot := &runner{distinct: map[string]bool{}, byReader: map[string]int{}, byClass: map[string]int{}, eofStyles: map[string]int{}}
+	for _, r := range rs {
+		t, e := r.tw.Counts()
+		traces, events = traces+t, events+e
+		if err := r.tw.Close(); err != nil {
+			panic(err)
+		}
+		tot.inputs += r.inputs
+		tot.runs += r.runs
+		tot.same += r.same
+		tot.sampled += r.sampled
+		tot.differ += r.differ
+		tot.diffInputs += r.diffInputs
+		for k := range r.distinct {
+			tot.distinct[k] = true
+		}
+		for k, v := range r.byReader {
+			tot.byReader[k] += v
+		}
+		for k, v := range r.byClass {
+			tot.byClass[k] += v
+		}
+		for k, v := range r.eofStyles {
+			tot.eofStyles[k] += v
+		}
+		if len(tot.diffs) < 400 {
+			tot.diffs = append(tot.diffs, r.diffs...)
+		}
+		if len(tot.samples) < 3 {
+			tot.samples = append(tot.samples, r.samples...)
+		}
+	}
+	r := tot
 	res := map[string]interface{}{
 		"inputs": r.inputs, "runs": r.runs, "same_as_whole": r.same, "same_sampled_for_tlc": r.sampled,
 		"differ_from_whole": r.differ, "inputs_with_differences": r.diffInputs, "differ_by_reader": r.byReader,
 		"distinct_observation_sequences": len(r.distinct), "traces": traces, "events": events,
 		"exhaustive_len": exhaustive, "sampled_len": sampledLen, "sampled_n": sampledN,
+		"inputs_by_class": r.byClass, "runs_by_eof_style": r.eofStyles,
 		"diffs": r.diffs, "samples": r.samples,
 	}
 	if r.diffs == nil {
